@@ -241,6 +241,7 @@ def setup(ctx):
         ctx.require('natural.nontrivial', 1, 'formulas whose natural mass differs from their mass')
         ctx.require('natural.isotope-ion', 1, 'formulas containing isotope ions')
         ctx.require('replace.unknown-density', 1, 'substitutions on formulas of unknown density')
+        ctx.require('cell.acute', 1, 'very flat but valid lattice cells')
         ctx.require('replace.unknown-density.one-atom-left', 1, 'a substitution on an unknown density that leaves one kind of atom')
         ctx.require('replace.partial', 1, 'partial substitutions')
         ctx.require('replace.target-present', 1, 'substitutions whose target is already in the formula')
@@ -624,14 +625,29 @@ def check_cell(ctx, case):
         al = 90.
     else:
         raise ModelError('unknown style %r' % style)
-    want = cell_formula(a, b, c, al, be, ga)
-    # self-check of the oracle: V^2 is the Gram determinant of the cell vectors
-    ca, cb, cg = (math.cos(math.radians(x)) for x in (al, be, ga))
-    gram = np.array([[a * a, a * b * cg, a * c * cb], [a * b * cg, b * b, b * c * ca], [a * c * cb, b * c * ca, c * c]])
-    if abs(math.sqrt(np.linalg.det(gram)) - want) > 1e-8 * want:
-        raise ModelError('oracle self-check failed for cell %r' % (case,))
+    rel = REL
+    if case.get('acute'):
+        # a valid but very flat cell: the documented expression cancels, so the reference is evaluated with 60 digits
+        # and the tolerance is what double arithmetic can lose in that expression (a few eps over the Gram factor)
+        import mpmath
+        with mpmath.workdps(60):
+            cs = [mpmath.cos(mpmath.mpf(x) * mpmath.pi / 180) for x in (al, be, ga)]
+            G = 1 - cs[0] ** 2 - cs[1] ** 2 - cs[2] ** 2 + 2 * cs[0] * cs[1] * cs[2]
+            if not G > 0:
+                raise ModelError('acute cell %r is not a valid cell' % (case,))
+            want = float(mpmath.mpf(a) * b * c * mpmath.sqrt(G))
+            rel = REL + 64 * 2.0 ** -52 / float(G)
+        ctx.count('cell.acute')
+        ctx.observe('cell.acute.smallest_angle_deg', min(al, be, ga))
+    else:
+        want = cell_formula(a, b, c, al, be, ga)
+        # self-check of the oracle: V^2 is the Gram determinant of the cell vectors
+        ca, cb, cg = (math.cos(math.radians(x)) for x in (al, be, ga))
+        gram = np.array([[a * a, a * b * cg, a * c * cb], [a * b * cg, b * b, b * c * ca], [a * c * cb, b * c * ca, c * c]])
+        if abs(math.sqrt(np.linalg.det(gram)) - want) > 1e-8 * want:
+            raise ModelError('oracle self-check failed for cell %r' % (case,))
     ctx.evaluated(what='cell')
-    if not ctx.close(got, want * 1e-24, rel=REL, name='cell.relerr'):
+    if not ctx.close(got, want * 1e-24, rel=rel, name='cell.relerr' if not case.get('acute') else 'cell.acute.relerr'):
         ctx.violation('volume(%s) [%s] = %r, a*b*c*sqrt(1-cos^2-...)*1e-24 = %r'
                       % (', '.join('%r' % v for v in (case['a'], case['b'], case['c'], case['alpha'], case['beta'], case['gamma'])),
                          style, got, want * 1e-24), style=style)
@@ -972,6 +988,20 @@ def generate(ctx):
                 if 1 - ca * ca - cb * cb - cg * cg + 2 * ca * cb * cg >= 0.01:
                     break
             a, b, c = (10 ** rng.uniform(0, 1.7) for _ in range(3))
+            if rng.random() < 0.12:
+                # "all lattice parameters with a valid cell": very flat cells too - one angle of a few degrees or less
+                # with the others at 90, or a rhombohedral cell with three equal small angles
+                x = 10 ** rng.uniform(-1.3, 0.9)        # 0.05 .. 8 degrees
+                if rng.random() < 0.5:
+                    angles = [90., 90., 90.]
+                    angles[rng.randrange(3)] = x if rng.random() < 0.7 else 180. - x
+                    style = rng.choice(['pos6', 'kw6', 'mixed', 'kw-shuffled'])
+                else:
+                    angles = [x, x, x]
+                    style = rng.choice(['pos6', 'kw6', 'alpha-only'])
+                yield 'cell', {'a': a, 'b': b, 'c': c, 'alpha': angles[0], 'beta': angles[1], 'gamma': angles[2],
+                               'style': style, 'text': rng.choice(['Fe', 'H2O', 'NaCl']), 'acute': True}
+                continue
             yield 'cell', {'a': a, 'b': b, 'c': c, 'alpha': al, 'beta': be, 'gamma': ga,
                            'style': rng.choice(['pos6', 'pos6', 'kw6', 'kw6', 'mixed', 'kw-shuffled', 'a-kw', 'abc-pos', 'ab-pos',
                                                 'alpha-only', 'gamma-kw', 'beta-kw', 'beta-gamma-pos']),
